@@ -35,7 +35,7 @@ ASSUMPTIONS = ["enumeration bound N=9 (10 thorough); lengths above the C02 oracl
 REQUIRED = ["calls.PinWords.has_finite_simples", "calls.PinWords.has_finite_alternations", "calls.PinWords.has_finite_wedges_type_1",
             "calls.PinWords.has_finite_wedges_type_2", "calls.Av.has_finitely_many_simples", "calls.FinitelyManySimplesStrategy.applies",
             "verdict.finite", "verdict.infinite", "oracleA.infinite_checked", "oracleA.finite_confirmed", "oracleB.tables_checked",
-            "oracleB.finite_families_checked", "symmetry.checked", "cli.checked", "oracleB.table_probes", "separating_bases"]
+            "oracleB.finite_families_checked", "symmetry.checked", "cli.checked", "oracleB.table_probes", "separating_bases", "history.enumeration_depths"]
 MIN_NONTRIVIAL = 20
 CTX = None
 MON = None
@@ -168,6 +168,21 @@ def chk_basis(ctx, basis, enumerate_simples=True):
         ctx.ev()
         if PinWords.has_finite_simples(var) is not util:
             report("basis", [basis], f"verdict changes when the basis is given {name}")
+    # history: the verdict of the (shared) class object must not depend on how far it has been enumerated
+    Av.clear_cache()
+    obj = Av(B)
+    for depth in (0, 3, 4, 5, 6, 7, 6, 8):
+        obj.count(depth)
+        ctx.ev()
+        ctx.count("history.enumeration_depths")
+        if obj.has_finitely_many_simples() is not meth or Av(B).has_finitely_many_simples() is not meth:
+            report("basis", [basis], f"Av.has_finitely_many_simples() changes to {not meth} after the class was enumerated to length {depth}")
+            break
+    fresh = PinWords.make_dfa_for_basis(B)
+    for kw in ({"dfa": fresh}, {"dfa": fresh, "check_all": True}, {"use_db": True, "dfa": fresh}):
+        ctx.ev()
+        if PinWords.has_finite_simples(B, **kw) is not util:
+            report("basis", [basis], f"verdict changes when the automaton is supplied by the caller ({sorted(kw)})")
     for kw in ({"use_db": True}, {"check_all": True}, {"use_db": True, "check_all": True}):
         PinWords.load_dfa_for_perm.cache_clear()
         ctx.ev()
